@@ -484,7 +484,8 @@ def return_cases(ctx, c, method, specs, extra_locals=None):
             if n.kind == 'return' and n.frame is g.top:
                 for st in res.at(n.id):
                     v = n.ast.value
-                    texts.add(ast.unparse(pick_ifexp(v, st, specs, n.frame)) if v is not None else 'None')
+                    from .norm import FrameEnv, subst
+                    texts.add(ast.unparse(subst(pick_ifexp(v, st, specs, n.frame), FrameEnv(n.frame))) if v is not None else 'None')
         # falling off the end returns None
         for st in res.exits():
             path = res.path(g.exit, st)
